@@ -19,9 +19,12 @@ ID = "C15"
 LEAN_MODULES = ["AcnProofs.C15"]
 DRIVER = "drv_C15"
 REQUIRED_THEOREMS = [
-    "Acn.C15.trunc_eq_floor", "Acn.C15.arrival_departure_spec", "Acn.C15.order_preserving",
-    "Acn.C15.stay_capped", "Acn.C15.requested_spec", "Acn.C15.requested_nonneg",
-    "Acn.C15.free_capacity_covers", "Acn.C15.init_le_capacity", "Acn.C15.fit_exact",
+    "Acn.C15.trunc_eq_floor", "Acn.C15.trunc_eq_ceil_before_epoch", "Acn.C15.zero_period_rejected",
+    "Acn.C15.arrival_departure_spec", "Acn.C15.order_preserving", "Acn.C15.order_strict_of_period_apart",
+    "Acn.C15.same_period_session_kept", "Acn.C15.stay_capped", "Acn.C15.requested_spec", "Acn.C15.requested_nonneg",
+    "Acn.C15.free_capacity_covers_default", "Acn.C15.default_conversion_total", "Acn.C15.sample_spec",
+    "Acn.C15.gen_fit_consts", "Acn.C15.init_le_capacity", "Acn.C15.fit_free_capacity", "Acn.C15.free_capacity_covers",
+    "Acn.C15.fit_exact", "Acn.C15.bisection_terminates", "Acn.C15.fit_F9_closed",
 ]
 BUDGET = {"quick": 1200, "thorough": 30000, "search": 12000}
 TRUSTED = [
@@ -238,6 +241,9 @@ def _gen_fit_case(rng):
         E = lin * rng.choice([1e-6, 1e-3, 0.01, 0.05, 0.1, 0.2, 0.3, 0.45])      # far below half the deliverable energy
     elif r < 0.9:
         E = rng.choice([8, 24, 40, 60, 85, 100]) * rng.choice([1.0, 1.0, 0.9999999, 1.0000001, 0.8, 0.5, 0.2])  # ladder boundaries
+        if rng.random() < 0.75:   # long enough a stay that the request is deliverable: the larger capacities get used
+            T = int(math.ceil(E * rng.choice([1.02, 1.3, 2.0, 5.0]) / (_maxp_fit(V) * (P / 60)))) + rng.choice([0, 0, 1, 7])
+            T = min(T, 1500)
     elif r < 0.95:
         E = rng.choice([0.0, 1.0, 5.0, 100.5, 150.0, 1e-9])
     else:
